@@ -740,3 +740,20 @@ def position_index_guard(body, bb, t):
     if mutated_between(body, rk, cb, bb):
         return None
     return f"index {form} where i is the position() hit on the same, unmodified collection (i < len)"
+
+
+def len_fraction_guard(body, bb, t):
+    """split_at(v, k) / v[..k] where k is `v.len() / c` (c >= 1) or `v.len() - d` of the same, unmodified collection
+    under the usual non-negativity of usize: k <= len"""
+    recv, idx = t["args"][0], t["args"][1]
+    rk = value_key(body, recv)
+    if rk is None:
+        return None
+    o = R.origin(body, idx, carriers={})
+    if o[0] == "rv" and o[1].get("k") in ("binop", "checked_binop") and str(o[1].get("op", "")).startswith("Div"):
+        c = const_int(o[1]["b"])
+        if c is not None and c >= 1:
+            k2, kind = _len_subject(body, o[1]["a"])
+            if k2 is not None and k2 == rk and not mutated_between(body, rk, o[2] if len(o) > 2 else bb, bb):
+                return f"offset is len / {c} of the same collection (<= len)"
+    return None
